@@ -308,6 +308,7 @@ type egen struct {
 	illP   int               // per-mille probability of an ill-typed choice
 	depth  int
 	quiet  bool              // inside an unbounded loop: no conc blocks
+	ivInUse map[string]bool  // loop variables of the enclosing loops
 	concP  int               // percent of statements that are conc blocks (default 5)
 	noteN  int               // running argument of obsC / Note events, distinct per rule
 }
@@ -815,6 +816,13 @@ func (g *egen) stmt(depth int, inLoop bool) *RS {
 		if r.chance(1, 6) {
 			iv = []string{"p_int64", "S.I64", "p_int32"}[r.intn(3)] // the host sees the loop variable
 		}
+		nestedSame := g.ivInUse[iv] // an enclosing loop uses the same variable: it may never reach its limit
+		if g.ivInUse == nil {
+			g.ivInUse = map[string]bool{}
+		}
+		wasInUse := g.ivInUse[iv]
+		g.ivInUse[iv] = true
+		defer func() { g.ivInUse[iv] = wasInUse }()
 		limit := strconv.Itoa(1 + r.intn(4))
 		init := &RS{Op: "assign", Sym: "=", Tgt: &RE{Op: "var", Sym: iv}, E: lit("int64", "0")}
 		cond := mkBin("cmp", "<", &RE{Op: "var", Sym: iv}, lit("int64", limit))
@@ -822,6 +830,10 @@ func (g *egen) stmt(depth int, inLoop bool) *RS {
 		if r.chance(1, 25) {
 			cond = mkBin("cmp", ">=", &RE{Op: "var", Sym: iv}, lit("int64", "0")) // unbounded: cut-off
 			g.quiet = true                                                         // no delayed observers 10000 times over
+		}
+		if nestedSame || (iv != "i" && iv != "j" && iv != "k") {
+			// an injected loop variable can be reset by the body: the loop may run to the cut-off
+			g.quiet = true
 		}
 		defer func() { g.quiet = quiet }()
 		step := &RS{Op: "assign", Sym: "+=", Tgt: &RE{Op: "var", Sym: iv}, E: lit("int64", "1")}
